@@ -16,6 +16,7 @@ func init() {
 			"the expected value, checkFastForwardUpdate returns nil only for a genuinely absent remote ref or isFastForward == true, checkTagUpdate rejects existing tags; (haves-from-remote) the exclusion set handed to " +
 			"revlist.Objects in sendPack is built only from the remote's advertised references and the local shallow list — never from local references; (force-rewrites-refspecs) PushOptions.Force only adds '+' to refspecs. " +
 			"(refspec-direction) in functions reachable from PushContext and not from fetch, a callback over the remote's references applies a RefSpec (Match, Dst) to the reference's name only through a value obtained from Reverse(). " +
+			"(lease-compared-on-every-accepting-path) checkForceWithLease accepts a command only across the equal edge of the comparison of cmd.Old with the leased value, or where the lease names another reference: 'absent on the remote' is a value the lease must match too. " +
 			"Not decided: that the remote ends with the pushed objects; isFastForward's graph walk (C42).",
 		Assumptions: []string{"the remote advertisement is truthful", "revlist.Objects is correct (C37)"},
 		Run:         runC38,
@@ -35,6 +36,37 @@ func runC38(c *Ctx) {
 	ffFn := p.Func("git.checkFastForwardUpdate")
 	leaseFn := p.Func("git.(*Remote).checkForceWithLease")
 	tagFn := p.Func("git.checkTagUpdate")
+	if leaseFn != nil {
+		// lease-compared-on-every-accepting-path: "absent" is a remote value like any other. checkForceWithLease may accept a
+		// command only where the remote's value (cmd.Old) was compared with the leased one and found equal, or where the lease
+		// names another reference; an accepting return in front of the comparison (for creations, say) lets a push re-create
+		// a branch that was deleted on the remote although the lease still expects its old value.
+		pass := FactGuard(func(f *Flow, fact Fact) bool {
+			mentions := func(field string) bool {
+				found := false
+				ast.Inspect(fact.Atom, func(n ast.Node) bool {
+					if sel, ok := n.(*ast.SelectorExpr); ok && sel.Sel.Name == field {
+						if fv, ok := f.Info.Uses[sel.Sel].(*types.Var); ok && fv.IsField() {
+							found = true
+						}
+					}
+					return !found
+				})
+				return found
+			}
+			be, ok := unparen(fact.Atom).(*ast.BinaryExpr)
+			if !ok {
+				return false
+			}
+			if mentions("Old") {
+				// cmd.Old != expected is false, or cmd.Old == expected is true
+				return (be.Op == token.NEQ && !fact.Truth) || (be.Op == token.EQL && fact.Truth)
+			}
+			// the lease is about another reference: the applicability condition is false
+			return mentions("RefName") && !fact.Truth
+		})
+		SuccessReturnsGuarded(c, "lease-compared-on-every-accepting-path", leaseFn, pass, "the comparison of the remote's value with the leased one (or the lease naming another reference)")
+	}
 	if ffFn == nil || leaseFn == nil || tagFn == nil {
 		c.Unresolved("push-command-guarded", "git.{checkFastForwardUpdate,checkForceWithLease,checkTagUpdate}", 0, "anchor not found")
 		return
